@@ -203,6 +203,50 @@ pub fn run(ctx: &mut Ctx) {
         }
         ctx.count_n("distinct_word_setter_pairs", 1);
     }
+    // 4b. the same setters and getters reached through the exported C function table
+    {
+        let t = crate::capi::raw_table();
+        for w in ctx.phase("via-table", 65536) {
+            ctx.begin_case(w);
+            let w = w as u16;
+            let st = &mut states[(w as usize) % 4];
+            let mut bad: Option<String> = None;
+            let mut n = 0u64;
+            for a in [0u8, 1, 4, 5, 9, 15, 16, 0x83, 0xff, (w >> 3) as u8] {
+                for which in 0..3 {
+                    n += 1;
+                    {
+                        let p = st.pp.packet_mut();
+                        p[2..4].copy_from_slice(&w.to_be_bytes());
+                    }
+                    let want = match which {
+                        0 => (w & !0x7800) | (((a & 0x0f) as u16) << 11),
+                        1 => (w & !0x000f) | (a & 0x0f) as u16,
+                        _ => (w & 0x780f) | ((a as u16) << 4 & 0x87f0),
+                    };
+                    let (got_w, g_op, g_rc, g_fl) = unsafe {
+                        let ppp: *mut ParsedPacket = &mut st.pp;
+                        match which {
+                            0 => t.call_set_opcode(ppp, a),
+                            1 => t.call_set_rcode(ppp, a),
+                            _ => t.call_set_flags(ppp, (a as u32) << 4 | 0xabcd_0000),
+                        }
+                        let p = (*ppp).packet();
+                        (u16::from_be_bytes([p[2], p[3]]), t.call_opcode(ppp), t.call_rcode(ppp), t.call_flags(ppp))
+                    };
+                    let ok = got_w == want && g_op == ((want >> 11) & 0xf) as u8 && g_rc == (want & 0xf) as u8 && g_fl == (st.ext | (want & 0x87f0) as u32);
+                    if !ok && bad.is_none() {
+                        bad = Some(format!("table setter {} with {:#x} on word {:#06x}: word {:#06x} (want {:#06x}), opcode {} rcode {} flags {:#x}", ["set_opcode", "set_rcode", "set_flags"][which], a, w, got_w, want, g_op, g_rc, g_fl));
+                    }
+                }
+            }
+            ctx.evaluations += n;
+            ctx.count_n("via_table_calls", n);
+            if let Some(b) = bad {
+                ctx.violation("C12", "via-table|wrong-bits".into(), b, &w.to_be_bytes());
+            }
+        }
+    }
     // 5. setter sequences on one object: getters must track the last value set
     let n = ctx.scaled(if thorough { 2_000_000 } else { 100_000 });
     for case in ctx.phase("sequences", n) {
